@@ -40,6 +40,11 @@ func pkgPath(short string) string {
 }
 
 func loadProgram(repoDir, goarch string, tests bool) (*Program, error) {
+	return loadProgramOverlay(repoDir, goarch, tests, nil)
+}
+
+// loadProgramOverlay is loadProgram with some files replaced by in-memory contents (inlined view).
+func loadProgramOverlay(repoDir, goarch string, tests bool, overlay map[string][]byte) (*Program, error) {
 	env := append(os.Environ(),
 		"GOFLAGS=-mod=mod", "GOPROXY=off", "GOSUMDB=off", "GOWORK=off", "GOTOOLCHAIN=local")
 	if goarch != "" {
@@ -52,6 +57,8 @@ func loadProgram(repoDir, goarch string, tests bool) (*Program, error) {
 		Fset:  fset,
 		Env:   env,
 		Tests: tests,
+
+		Overlay: overlay,
 	}
 	pkgs, err := packages.Load(cfg, "./...")
 	if err != nil {
